@@ -21,8 +21,11 @@
   complete well-nested execution of the WHOLE item chain, whatever the stages did on earlier items.
   Both server chains (section 7): the innermost continuation of the message chain is the item chain.
   The header the handler's context reports (section 8): `HdrMode.core` (batch context made by the core
-  handler) reports the header of the message that is executed; `HdrMode.entry` — the code at /repo
-  HEAD — reports the header of the ORIGINAL request (`header_entry_stale`, reported as a finding).
+  handler — the code at /repo HEAD since 4b5c841, `runImpl_is_core`) reports the header of the message
+  that is executed (`header_follows_message`, `header_go`); `HdrMode.entry` — the code before that
+  commit — reports the header of the ORIGINAL request (`header_entry_stale`: this was finding
+  `mw:srvmsg:handler-header-not-of-message-executed`, repaired; the engine probes the mode of the real
+  code on every run and reports the finding again if it regresses).
   Concurrency (section 9): the chain code is run under INTERFERENCE — a memory cell outside the call
   (`St.cur`) that other goroutines overwrite arbitrarily after every event: result and trace are
   those of the undisturbed run (`concurrent_run_independent`), because the index of `nextFrom(i)`
@@ -338,8 +341,8 @@ example :
 /-! ### 8. the request header the handler's context reports -/
 
 /-- `runImpl` is `runImplH` with the header mode of the code at /repo HEAD. -/
-theorem runImpl_is_entry (k : Kind) (chain : List Stage) (core : Core) (m0 : Msg) (c0 : Nat) :
-    runImpl k chain core m0 c0 = runImplH .entry k chain core m0 c0 := rfl
+theorem runImpl_is_core (k : Kind) (chain : List Stage) (core : Core) (m0 : Msg) (c0 : Nat) :
+    runImpl k chain core m0 c0 = runImplH .core k chain core m0 c0 := rfl
 
 theorem runImplH_eq_runSpecH (hm : HdrMode) (k : Kind) (chain : List Stage) (core : Core) (m0 : Msg)
     (c0 : Nat) : runImplH hm k chain core m0 c0 = runSpecH hm k chain core m0 c0 := by
@@ -372,9 +375,17 @@ theorem header_follows_message : C19_header_full .core := by
   rw [this]
   exact ha
 
-/-- 8c. the code at /repo HEAD does NOT have it: a stage that passes on another message (`mt1.c`)
-    gets the handler run on message 71 while its context reports header 7 — confirmed on the real
-    code (finding `mw:srvmsg:handler-header-not-of-message-executed`). -/
+/-- 8b'. … in particular THE CODE OF TODAY (`runImpl`): every handler invocation on the server
+    message chain is told the header of the message it executes. -/
+theorem header_go (chain : List Stage) (core : Core) (m0 : Msg) (c0 : Nat) :
+    (runImpl .srvmsg chain core m0 c0).2.all Event.hdrOk = true := by
+  rw [runImpl_is_core]
+  exact header_follows_message chain core m0 c0
+
+/-- 8c. the code before 4b5c841 (batch context made by `HandleRequest` only) did NOT have it: a stage
+    that passes on another message (`mt1.c`) got the handler run on message 71 while its context
+    reported header 7 — was confirmed on the real code (finding
+    `mw:srvmsg:handler-header-not-of-message-executed`, repaired by that commit). -/
 theorem header_entry_stale : ¬ C19_header_full .entry := by
   intro h
   have := h [⟨1, [.setMsg (.tag 1), .call]⟩] ⟨[], .ok 5, []⟩ ⟨7, 1⟩ 9
